@@ -53,6 +53,7 @@ struct World {
     std::unique_ptr<cocls::thread_pool> pool;
     std::vector<std::string> script;
     int nworkers = 1;
+    int form = 0;                   // rotation of equivalent API forms (header "form")
     std::map<int, Rec> recs;        // job id (1-based position in script) -> record
     vsched sched;
     std::vector<cocls::async<void>> keep;
@@ -206,7 +207,15 @@ static void client(World &w) {
             w.pool->run_detached([pw, j, g = std::make_unique<Guard>(r)] { g->called = true; job_begin(*pw, j); pw->pool->stop(); job_end(*pw, j); });
         } else if (k == "asy") {
             r->fut = reinterpret_cast<cocls::future<int> *>(r->fut_mem);
-            new (r->fut_mem) cocls::future<int>(w.pool->run(asy_job(w, j)));
+            if ((j + w.form) % 2 == 0) {
+                new (r->fut_mem) cocls::future<int>(w.pool->run(asy_job(w, j)));
+            } else {
+                // the lvalue overload, with the caller's coroutine object destroyed as soon as run() has returned (a local
+                // of a function that returns the future): the queued work must own everything it needs
+                auto c = std::make_unique<cocls::async<int>>(asy_job(w, j));
+                new (r->fut_mem) cocls::future<int>(w.pool->run(*c));
+                c.reset();
+            }
         } else if (k == "res") {
             cocls::suspend_point<void> sp = res_job(w, j).detach();
             w.pool->resume(std::move(sp));
@@ -228,6 +237,7 @@ static void run(const Scenario &sc, Reporter &rep) {
     World &w = *pw;
     for (auto &x : sc.hdr.at("script").l) w.script.push_back(x.s);
     w.nworkers = (int) sc.hdr.at("workers").as_int(1);
+    w.form = (int) sc.hdr.at("form").as_int(0);
     for (std::size_t i = 0; i < w.script.size(); i++) if (w.script[i] != "stop" && w.script[i] != "rv") w.recs[(int) i + 1].kind = w.script[i];
     for (auto &kv : w.recs) {
         if (kv.second.kind == "aw") {
